@@ -154,6 +154,7 @@ func verifResetIPC() {
 	verifReaders, verifReaderSt = nil, nil
 	verifOutStreams, verifWriters, verifWriterSt = nil, nil, nil
 	verifOptSchema = nil
+	verifMemQueue, verifMemNext = nil, 0
 }
 
 func verifStreamOf(r *ipc.Reader) *verifInStream {
@@ -179,11 +180,35 @@ func (s *verifSink) Write(p []byte) (int, error) { s.n += len(p); return len(p),
 var verifHeaderStream *verifInStream // what an in-memory header IPC blob ('H'...) decodes to
 var verifFetchedStream *verifInStream // what an in-memory fetched external payload ('F'...) decodes to
 
+// In-memory concatenations: a byte slice of k 'S' bytes stands for k IPC streams
+// back to back; each NewReader over it consumes one byte (so the caller's
+// bytes.Reader advances exactly past one stream) and serves the next entry of verifMemQueue.
+var (
+	verifMemQueue []*verifInStream
+	verifMemNext  int
+)
+
 func verifIpcNewReader(r io.Reader, opts ...ipc.Option) (*ipc.Reader, error) {
 	verifLastRdSrc = r
 	// in-memory blobs produced by stubbed serialisers are recognised by their first byte
 	if br, ok := r.(*bytes.Reader); ok && br.Len() > 0 {
 		b, _ := br.ReadByte()
+		if b == 'S' {
+			if verifMemNext >= len(verifMemQueue) {
+				return nil, io.EOF
+			}
+			src := verifMemQueue[verifMemNext]
+			verifMemNext++
+			if src.bad {
+				return nil, errors.New("arrow/ipc: could not read message schema")
+			}
+			cp := *src
+			cp.opened = true
+			rd := &ipc.Reader{}
+			verifReaders = append(verifReaders, rd)
+			verifReaderSt = append(verifReaderSt, &cp)
+			return rd, nil
+		}
 		_ = br.UnreadByte()
 		if b == 'H' || b == 'F' {
 			st := &verifInStream{failAt: -1, opened: true}
